@@ -43,6 +43,20 @@ Theorem spgemm_rows_sorted :
 Proof. exact spgemm_rows_sorted_proof. Qed.
 Print Assumptions spgemm_rows_sorted.
 
+(* (3') csc @ csc through the transposition trick  a @ b = (b.T @ a.T).T  (the kernel is called on
+   (out_shape[::-1], b..., a...)): the returned triple, read as the CSC form of the m x p result, is
+   well formed and means the matrix product.  Needs the commutativity of the multiplication. *)
+Theorem spgemm_csc_den :
+  forall (V : Type) (vzero : V) (vadd vmul : V -> V -> V), comm_semiring vzero vadd vmul ->
+  forall (m n p : Z) (ac bc : csr V),
+    csr_wfb n m ac = true -> csr_wfb p n bc = true ->
+    exists r, dot_csr_csr V vzero vadd vmul p m bc ac = KOk r /\ csr_wfb p m r = true /\
+      forall i k, 0 <= k < p ->
+        csr_den V vzero r k i
+        = np_matmul2 V vzero vadd vmul n (fun i j => csr_den V vzero ac j i) (fun j k => csr_den V vzero bc k j) i k.
+Proof. exact spgemm_csc_den_proof. Qed.
+Print Assumptions spgemm_csc_den.
+
 (* (4) _dot_coo_ndarray returns on EVERY input (any coordinate arrays, any output width, zero
    included): len(data1) units of fuel for the outer while loop always suffice. *)
 Theorem dot_coo_ndarray_terminates :
@@ -62,6 +76,49 @@ Theorem dot_dispatch_total :
 Proof. exact dot_dispatch_total_proof. Qed.
 Print Assumptions dot_dispatch_total.
 
+(* (5') the dispatch model IS what the source of _dot does: for every combination it equals the table
+   obtained by executing _dot's AST over the abstract operand kinds (Gen/S_dot.v, regenerated from
+   /repo on every run). *)
+Theorem dot_dispatch_matches_source :
+  forall (a_argmin : bool) (ka kb : okind) (rt : rtype),
+    source_dispatch a_argmin ka kb rt
+    = Some (match dot_dispatch a_argmin ka kb rt with
+            | Some (ker, o) => Some (kernel_code ker, rkind_code o)
+            | None => None end).
+Proof. exact dot_dispatch_matches_source_proof. Qed.
+Print Assumptions dot_dispatch_matches_source.
+
+(* matmul's case chain (tests translated from the source): dot for b.ndim <= 2; dot and move the first
+   axis for a.ndim <= 2; squeeze a / squeeze b when the leading extents multiply to 1; else batch. *)
+Theorem matmul_route_spec :
+  forall (a_ndim b_ndim a_lead b_lead : Z),
+    matmul_route a_ndim b_ndim a_lead b_lead
+    = Some (if b_ndim <=? 2 then MmDot
+            else if a_ndim <=? 2 then MmDotMoveAxis
+            else if (a_ndim <=? b_ndim) && (a_lead =? 1) then MmSqueezeA
+            else if (b_ndim <=? a_ndim) && (b_lead =? 1) then MmSqueezeB
+            else MmBatch).
+Proof. exact matmul_route_spec_proof. Qed.
+Print Assumptions matmul_route_spec.
+
+(* (6) tensordot's bookkeeping (axis normalisation, move the contracted axes to the end of a and to the
+   front of b, reshape to 2-d, multiply, reshape back; zero-size shortcut) computes np.tensordot, for
+   every choice of contraction axes (negative axes allowed, distinct, extents matching), on the dense
+   meaning of the operands (ndim >= 1). *)
+Theorem tensordot_den :
+  forall (V : Type) (vzero : V) (vadd vmul : V -> V -> V) (a b : arr V) (axes_a axes_b : list Z),
+    let as_ := a_shape a in
+    let bs := a_shape b in
+    let axa := map (norm_axis (Z.of_nat (length as_))) axes_a in
+    let axb := map (norm_axis (Z.of_nat (length bs))) axes_b in
+    shape_ok as_ -> shape_ok bs -> (0 < length as_)%nat -> (0 < length bs)%nat ->
+    Forall2 (axis_pair_ok as_ bs) axes_a axes_b -> NoDup axa -> NoDup axb ->
+    exists r, tensordot_m V vzero vadd vmul a b axes_a axes_b = Ok r
+      /\ a_shape r = a_shape (np_tensordot V vzero vadd vmul a b axa axb)
+      /\ forall ix, in_range (a_shape r) ix -> a_at r ix = a_at (np_tensordot V vzero vadd vmul a b axa axb) ix.
+Proof. exact tensordot_den_proof. Qed.
+Print Assumptions tensordot_den.
+
 (* dot of two 1-d operands (routing by the generated fragment g_dot): NumPy's answer, ValueError for
    different lengths included (finding D19, repaired). *)
 Theorem dot_1d_correct :
@@ -70,3 +127,20 @@ Theorem dot_1d_correct :
     = match np_dot_1d V vzero vadd vmul a b with Some v => Ok v | None => Raise ValueError end.
 Proof. exact dot_1d_correct_proof. Qed.
 Print Assumptions dot_1d_correct.
+
+(* _dot_csc_ndarray_sparse (GCXS with compressed axis 1 times ndarray, sparse result).  The statements
+   corresponding to (2) and (3),
+     forall m n p a b, csr_wfb n m a = true ->
+       exists r, dot_csc_ndarray_sparse m n p a b = KOk r /\ csr_wfb p m r = true,
+   are FALSE of the code as it stands (two findings of this check): *)
+Theorem csc_ndarray_count_exact_refuted :
+  exists (m n p : Z) (a : csr Z) (b : Z -> Z -> Z),
+    csr_wfb n m a = true /\ dot_csc_ndarray_sparse Z 0 Z.add Z.mul Z.eqb m n p a b = KTail.
+Proof. exact csc_ndarray_count_exact_refuted_proof. Qed.
+Print Assumptions csc_ndarray_count_exact_refuted.
+
+Theorem csc_ndarray_rows_sorted_refuted :
+  exists (m n p : Z) (a : csr Z) (b : Z -> Z -> Z) (r : csr Z),
+    csr_wfb n m a = true /\ dot_csc_ndarray_sparse Z 0 Z.add Z.mul Z.eqb m n p a b = KOk r /\ csr_wfb p m r = false.
+Proof. exact csc_ndarray_rows_sorted_refuted_proof. Qed.
+Print Assumptions csc_ndarray_rows_sorted_refuted.
